@@ -115,6 +115,8 @@ Definition good_c10_streams (c : cfg) (x : ist) : bool :=
    attempt was abandoned unanswered (a reply already under way could still reach its listener) *)
 Definition good_c02 (c : cfg) (x : ist) : bool :=
   let s := i_st x in
+  (* nothing is written into the downStream object after it was given back to the pool *)
+  negb (late_started s) &&
   implb' (gave s)
          (negb (abandoned s) && (nnew s <=? 1)%nat && negb (global_armed s) && negb (up_alive s) &&
           match try_armed s with None => true | Some _ => false end && cleaned s).
@@ -124,7 +126,9 @@ Definition good_c14 (c : cfg) (x : ist) : bool :=
   let s := i_st x in let g := i_gs x in
   negb (g_new_after_deny g) &&
   implb' (g_denied g) ((g_new g =? 0)%nat) &&
-  implb' (g_denied g && g_started g) (match g_reply_kind g with Some (KUp, _) => false | Some _ => true | None => false end).
+  implb' (g_denied g && g_started g) (match g_reply_kind g with Some (KUp, _) => false | Some _ => true | None => false end) &&
+  (* every reply whose headers were written downstream had passed the send-filter chain since it was last replaced *)
+  negb (x_unfilt s).
 
 (* C17 retry part *)
 Definition good_c17 (src : srcp) (c : cfg) (x : ist) : bool :=
@@ -166,7 +170,7 @@ Definition good_all (src : srcp) (c : cfg) (x : ist) : bool :=
 Definition mk (ow d t : bool) (r : route) (nh : nat) (ron : bool) (nr : nat) (codes : list Z) (tt : bool) (mx : Z)
               (rf : list rfilter) (sf : list sfilter) (pool : list poolres) : cfg :=
   {| c_oneway := ow; c_data := d; c_trailers := t; c_route := r; c_nhosts := nh; c_retry_on := ron; c_num_retries := nr;
-     c_codes := codes; c_try_timeout := tt; c_max_retries := mx; c_recv := rf; c_send := sf; c_pool := pool; c_delay := []; c_snd_err_hdr := false; c_snd_err_data := false; c_snd_err_trl := false; c_http := false |}.
+     c_codes := codes; c_try_timeout := tt; c_max_retries := mx; c_recv := rf; c_send := sf; c_pool := pool; c_delay := []; c_snd_err_hdr := false; c_snd_err_data := false; c_snd_err_trl := false; c_http := false; c_nohost_from := None |}.
 
 Definition req_shapes : list (bool * bool * bool) :=
   [(false, false, false); (false, true, false); (false, true, true); (true, false, false)].
@@ -254,5 +258,17 @@ Definition fam_http : list cfg :=
   [mk false true false RouteForward 2 true 0 [] true 0 [] [] [] <| c_http := true |>;
    mk false false false RouteForward 2 false 0 [] false 0 [] [] [PoolConnFail] <| c_http := true |>;
    mk false false false RouteForward 2 true 0 [] false 0 [{| f_phase := 0; f_code := 403; f_verdicts := [] |}] [] [] <| c_http := true |>].
+
+(* the re-attempt of a retry cannot start (no healthy host / no cluster any more at retry time): the local 502 is produced in the
+   retry phase, after the retried 5xx had gone through the send filters; chains with send filters that continue / stop / answer *)
+Definition fam_nohost : list cfg :=
+  flat_map (fun sv =>
+  flat_map (fun tt => map (fun http =>
+    mk false false false RouteForward 2 true 0 [] tt 0 [{| f_phase := 0; f_code := 403; f_verdicts := [] |}]
+       [{| sf_code := 400; sf_verdicts := [VContinue; sv] |}; {| sf_code := 401; sf_verdicts := [] |}] []
+       <| c_http := http |> <| c_nohost_from := Some 1%nat |>) [false; true]) [false; true])
+  [VContinue; VStop; VHijack; VDirect] ++
+  [mk false true false RouteForward 2 true 0 [] false 1 [] [{| sf_code := 400; sf_verdicts := [] |}] [PoolConnFail] <| c_nohost_from := Some 1%nat |>;
+   mk false false false RouteForward 2 true 2 [503] true 0 [] [{| sf_code := 400; sf_verdicts := [] |}] [] <| c_nohost_from := Some 2%nat |>].
 
 Definition chunkn (n k : nat) (l : list cfg) : list cfg := firstn n (skipn (n * k) l).
